@@ -196,6 +196,13 @@ fn list_lines(stdout: &str) -> BTreeSet<String> {
     stdout.lines().map(|l| l.trim_end_matches('\r').to_string()).filter(|l| !l.is_empty()).collect()
 }
 
+/// the child died because an allocation failed under the sandbox's address-space limit: the
+/// library asked for gigabytes (a resource defect of its own, judged elsewhere); the exit
+/// status clauses of this property cannot be judged on such a run
+fn died_of_oom(r: &RunOut) -> bool {
+    !r.ok() && r.stderr.contains("memory allocation of") && r.stderr.contains("failed")
+}
+
 fn cmdline(args: &[String]) -> String {
     format!("warcraft-rs {}", args.join(" "))
 }
@@ -215,6 +222,9 @@ fn check_views(sb: &Sandbox, arch: &str, with_tree: bool, ctx: &str) -> Result<V
     // list
     let args = crate::sandbox::sv(&["mpq", "list", arch]);
     let r = sb.run(&args);
+    if died_of_oom(&r) {
+        return Err(Fail::new(format!("library-cannot-read-archive:{ctx}"), format!("`{}` → {}", cmdline(&args), show(&r))));
+    }
     if !r.ok() {
         return Err(Fail::new(format!("list-fails-on-readable-archive:{ctx}"), format!("`{}` → {}", cmdline(&args), show(&r))));
     }
@@ -233,6 +243,9 @@ fn check_views(sb: &Sandbox, arch: &str, with_tree: bool, ctx: &str) -> Result<V
     // info
     let args = crate::sandbox::sv(&["mpq", "info", arch]);
     let r = sb.run(&args);
+    if died_of_oom(&r) {
+        return Err(Fail::new(format!("library-cannot-read-archive:{ctx}"), format!("`{}` → {}", cmdline(&args), show(&r))));
+    }
     if !r.ok() {
         return Err(Fail::new(format!("info-fails-on-readable-archive:{ctx}"), format!("`{}` → {}", cmdline(&args), show(&r))));
     }
@@ -250,6 +263,9 @@ fn check_views(sb: &Sandbox, arch: &str, with_tree: bool, ctx: &str) -> Result<V
     if with_tree {
         let args = crate::sandbox::sv(&["mpq", "tree", arch, "--no-color"]);
         let r = sb.run(&args);
+        if died_of_oom(&r) {
+            return Err(Fail::new(format!("library-cannot-read-archive:{ctx}"), format!("`{}` → {}", cmdline(&args), show(&r))));
+        }
         if !r.ok() {
             return Err(Fail::new(format!("tree-fails-on-readable-archive:{ctx}"), format!("`{}` → {}", cmdline(&args), show(&r))));
         }
@@ -498,6 +514,11 @@ pub fn run_lib(check: &Check, c: &LibCase) -> Result<(), Fail> {
             let sig = if missing.len() as u64 == errs { "exit0-on-missing-name:mpq:extract" } else { "exit0-on-failed-extraction:mpq:extract" };
             return Err(Fail::new(sig, format!("`{}` → {} although the library cannot read {errs} requested file(s): {:?}", cmdline(&xa), show(&r), which)));
         }
+        return Ok(());
+    }
+    if died_of_oom(&r) {
+        check.bump("lib-cannot-read-own-archive", 1);
+        note(&format!("{}: `{}` → {}", spec.summary(), cmdline(&xa), show(&r)));
         return Ok(());
     }
     if errs == 0 && !r.ok() {
